@@ -120,6 +120,9 @@ def analyse_branch(body, out_name):
     for st in body:
         if isinstance(st, ast.Assign) and len(st.targets) == 1 and isinstance(st.targets[0], ast.Name):
             terms += add_terms(st.value)
+        elif isinstance(st, ast.AugAssign) and isinstance(st.op, ast.Add) and isinstance(st.value, ast.List) and \
+                len(st.value.elts) == 1:
+            terms += add_terms(st.value.elts[0])          # out += [e]  ==  out.append(e)
         elif isinstance(st, ast.AugAssign) and isinstance(st.op, ast.Add):
             terms += add_terms(st.value)
         elif isinstance(st, ast.Expr) and isinstance(st.value, ast.Call) and \
@@ -187,7 +190,29 @@ def run(repo):
         defs = {k: v for k, v in single_defs(fi.node).items()
                 if any(is_self_attr(x, 'multiplier') or is_self_attr(x, 'sign') for x in ast.walk(v))
                 and k not in (out_name, 'value_in')}
+        # the local that holds the evaluated constant part: the one defined from self.affine_out
+        outs = {n_.targets[0].id for n_ in walk_no_nested(fi.node) if isinstance(n_, ast.Assign)
+                and len(n_.targets) == 1 and isinstance(n_.targets[0], ast.Name)
+                and any(is_self_attr(x, 'affine_out') for x in ast.walk(n_.value))}
+        cands = set(outs)
+        for lp_ in walk_no_nested(fi.node):
+            if isinstance(lp_, ast.For) and isinstance(lp_.iter, ast.Call) and ntext(lp_.iter.func) == 'zip' and \
+                    isinstance(lp_.target, ast.Tuple) and len(lp_.target.elts) == len(lp_.iter.args):
+                for t_, a_ in zip(lp_.target.elts, lp_.iter.args):
+                    if isinstance(t_, ast.Name) and isinstance(a_, ast.Name) and a_.id in outs:
+                        cands.add(t_.id)
+        used = {x.id for _l, b_, _n in chain for st_ in b_ for x in ast.walk(st_) if isinstance(x, ast.Name)}
+        cands &= used
+        if len(cands) == 1:
+            out_name = next(iter(cands))
+        # temporaries defined inside a branch (sum_sq = (value_in**2).sum()) are read through
+        allv = single_defs(fi.node)
         for letters, body, node in chain:
+            inner = {k: v for k, v in allv.items() if k not in (out_name, 'value_in', 'output') and
+                     any(any(v is y for y in ast.walk(st_)) for st_ in body)}
+            if inner:
+                body = [st_ for st_ in body if not (isinstance(st_, ast.Assign) and any(st_.value is v for v in inner.values()))]
+                body = [expand_locals(fi.node, st_, defs=inner) for st_ in body]
             if defs:
                 body = [expand_locals(fi.node, st_, defs=defs) for st_ in body]
             info = analyse_branch(body, out_name)
